@@ -51,7 +51,37 @@ def Kw.all : List Kw :=
 
 def keywordNames : List String := Kw.all.map Kw.name
 
-def Kw.text (k : Kw) : Bytes := str k.name
+def Kw.text : Kw → Bytes
+  | .include_ => b!"include"
+  | .cppInclude => b!"cpp_include"
+  | .namespace_ => b!"namespace"
+  | .void => b!"void"
+  | .bool => b!"bool"
+  | .byte => b!"byte"
+  | .i8 => b!"i8"
+  | .i16 => b!"i16"
+  | .i32 => b!"i32"
+  | .i64 => b!"i64"
+  | .double => b!"double"
+  | .string => b!"string"
+  | .binary => b!"binary"
+  | .map => b!"map"
+  | .list => b!"list"
+  | .set => b!"set"
+  | .oneway => b!"oneway"
+  | .typedef => b!"typedef"
+  | .struct => b!"struct"
+  | .union => b!"union"
+  | .exception => b!"exception"
+  | .extends => b!"extends"
+  | .throws => b!"throws"
+  | .service => b!"service"
+  | .enum => b!"enum"
+  | .const => b!"const"
+  | .required => b!"required"
+  | .optional => b!"optional"
+  | .true_ => b!"true"
+  | .false_ => b!"false"
 
 def keywordOf (w : Bytes) : Option Kw := Kw.all.find? (fun k => k.text == w)
 
@@ -69,13 +99,27 @@ def reservedNames : List String :=
    "then", "this", "throw", "transient", "try", "undef", "unless", "unsigned", "until", "use",
    "var", "virtual", "volatile", "when", "while", "with", "xor", "yield"]
 
-def reservedWords : List Bytes := reservedNames.map str
+def reservedWords : List Bytes :=
+  [b!"BEGIN", b!"END", b!"__CLASS__", b!"__DIR__", b!"__FILE__", b!"__FUNCTION__", b!"__LINE__",
+   b!"__METHOD__", b!"__NAMESPACE__", b!"abstract", b!"alias", b!"and", b!"args", b!"as",
+   b!"assert", b!"begin", b!"break", b!"case", b!"catch", b!"class", b!"clone", b!"continue",
+   b!"declare", b!"def", b!"default", b!"del", b!"delete", b!"do", b!"dynamic", b!"elif",
+   b!"else", b!"elseif", b!"elsif", b!"end", b!"enddeclare", b!"endfor", b!"endforeach",
+   b!"endif", b!"endswitch", b!"endwhile", b!"ensure", b!"except", b!"exec", b!"finally",
+   b!"float", b!"for", b!"foreach", b!"from", b!"function", b!"global", b!"goto", b!"if",
+   b!"implements", b!"import", b!"in", b!"inline", b!"instanceof", b!"interface", b!"is",
+   b!"lambda", b!"module", b!"native", b!"new", b!"next", b!"nil", b!"not", b!"or", b!"package",
+   b!"pass", b!"public", b!"print", b!"private", b!"protected", b!"raise", b!"redo", b!"rescue",
+   b!"retry", b!"register", b!"return", b!"self", b!"sizeof", b!"static", b!"super", b!"switch",
+   b!"synchronized", b!"then", b!"this", b!"throw", b!"transient", b!"try", b!"undef",
+   b!"unless", b!"unsigned", b!"until", b!"use", b!"var", b!"virtual", b!"volatile", b!"when",
+   b!"while", b!"with", b!"xor", b!"yield"]
 
 def isReserved (w : Bytes) : Bool := reservedWords.contains w
 
 /-- `symbol = [\*=<>\(\)\{\},;:\[\]]` -/
 def symbolString : String := "*=<>(){},;:[]"
-def symbolChars : Bytes := str symbolString
+def symbolChars : Bytes := b!"*=<>(){},;:[]"
 def isSymbol (c : UInt8) : Bool := symbolChars.contains c
 
 inductive Tok where
